@@ -100,6 +100,15 @@ CHECKS["C01"] = dict(cat="model_checking", ref="4 C01",
          "independent daemon processes (fresh hash seeds, different GOMAXPROCS) and all ledger tables compared; one replica per chain is validated by TLC.",
     technique="TLA+ two-replica model (MC_Determinism) + TLC exhaustive + K-replica replay of real chains with dump comparison")
 
+CHECKS["C18"] = dict(cat="model_checking", ref="4 C18", engine="tlc+gate-scheduler+race-detector",
+    text="Api.tla (TLC) interleaves the sync loop with two readers at the critical sections of the averages cache and of the height publication and proves "
+         "LedgerUnaffected, RespCommitted, NoTornCache (the unlocked / publish-early variants yield counterexamples); two schedules taken from those "
+         "counterexamples are replayed deterministically on the real daemon with gate hooks, all read methods are hammered concurrently during a full sync "
+         "under the race detector, final ledgers are compared with a reader-free run and the observations validated by TLC (Trace_Api).",
+    note="Gate hooks (build tag verif) and the race detector only witness schedules that occur; infeasible schedules (second goroutine blocked on the lock) "
+         "are recorded, not failed. Trusted: TLC, Go race detector, harness scheduler.",
+    technique="TLA+ spec of sync x readers (Api.tla) + TLC exhaustive + gate-driven schedule replay + race-detector load run + TLC validation")
+
 PENDING = {}
 
 def main():
